@@ -35,6 +35,7 @@ import (
 	"testing"
 
 	"github.com/ethereum/go-ethereum/common"
+	"github.com/ethereum/go-ethereum/crypto"
 	ethtypes "github.com/ethereum/go-ethereum/core/types"
 
 	"github.com/cosmos/cosmos-sdk/simapp/helpers"
@@ -84,6 +85,10 @@ type c04Hist struct {
 	cb       bool
 	recvd    []c04Recvd // accepted receives (for replays; after an upgrade the receipts are gone and a replay runs its callback again)
 	nextRecv uint64
+	hot         string            // wide histories: destination planted at 2^64-2 / 2^64-3
+	base        map[string]uint64 // planted counters: dst -> n-1
+	pendingTags []string // non-default field values of the call(s) being sent (counted when the send commits)
+	lastRaws  [][]byte // payloads of the genuine PacketSent logs of the last classified receipt (as emitted)
 	restarted int // number of restarts from exported genesis in this history
 	upgraded int  // number of software upgrades applied in this history
 	mode     int  // 0 normal, 1 own-name witness, 2 upgrade-heavy
@@ -151,7 +156,7 @@ func (h *c04Hist) dump() string {
 	pk := w.A.App.XIBCKeeper.PacketKeeper
 	ds := h.dsts()
 	var n, k, c, e []string
-	seqs := pk.GetAllPacketSendSeqs(ctx)
+	seqs := w.rawSendSeqs()
 	sort.Slice(seqs, func(i, j int) bool { return hxs(seqs[i].DstChain) < hxs(seqs[j].DstChain) })
 	for _, s := range seqs {
 		pre := ""
@@ -191,6 +196,26 @@ func (h *c04Hist) dump() string {
 		return strings.Join(l, ",")
 	}
 	return "N:" + j(n) + " K:" + j(k) + " C:" + j(c) + " E:" + j(e) + " R:" + strconv.Itoa(len(pk.GetAllPacketReceipts(ctx)))
+}
+
+// rawSendSeqs reads the next-send counters straight from the xibc store (keys nextSequenceSend/<src>/<dst>, value
+// big-endian uint64) — not through the keeper's export helper GetAllPacketSendSeqs, so that a defect of the export path
+// shows where it acts (restart), not in every dump
+func (w *c04World) rawSendSeqs() []packettypes.PacketSequence {
+	ctx := w.A.GetContext()
+	st := ctx.KVStore(w.A.App.GetKey(host.StoreKey))
+	it := sdk.KVStorePrefixIterator(st, []byte(host.KeyNextSeqSendPrefix+"/"))
+	defer it.Close()
+	var out []packettypes.PacketSequence
+	for ; it.Valid(); it.Next() {
+		parts := strings.Split(string(it.Key()), "/")
+		src, dst := "?", string(it.Key())
+		if len(parts) == 3 {
+			src, dst = parts[1], parts[2]
+		}
+		out = append(out, packettypes.PacketSequence{SrcChain: src, DstChain: dst, Sequence: sdk.BigEndianToUint64(it.Value())})
+	}
+	return out
 }
 
 // digest of everything a failed send must leave alone: the whole xibc store, the whole EVM store (code and
@@ -299,10 +324,20 @@ func c04B(b bool) string {
 
 // packet fields of the op line; bytes = ABIPack of the decoded packet (what CommitPacket hashes)
 func (w *c04World) packetFields(p *packettypes.Packet, knownBytes bool) string {
+	return w.packetFieldsRaw(p, knownBytes, nil)
+}
+
+// packetFieldsRaw: with `raw` (the payload the packet contract EMITTED, taken from the PacketSent log) the op line carries
+// those bytes and their hash — the model commits to sha256 of the emitted bytes (decode-then-encode is the identity, C19)
+func (w *c04World) packetFieldsRaw(p *packettypes.Packet, knownBytes bool, raw []byte) string {
 	bz, hs := "-", "-"
 	if knownBytes {
-		b, err := p.ABIPack()
-		c04Must(err)
+		b := raw
+		if b == nil {
+			var err error
+			b, err = p.ABIPack()
+			c04Must(err)
+		}
 		s := sha256.Sum256(b)
 		bz, hs = hx(b), hx(s[:])
 	}
@@ -323,40 +358,47 @@ func (w *c04World) packetFields(p *packettypes.Packet, knownBytes bool) string {
 // classification of a receipt log exactly as the property reads it (independent re-implementation of the
 // filter: packet-contract address, PacketSent topic, payload decodes to a packet)
 func (h *c04Hist) classify(l *ethtypes.Log) (string, *packettypes.Packet) {
+	s, p, _ := h.classifyRaw(l)
+	return s, p
+}
+
+func (h *c04Hist) classifyRaw(l *ethtypes.Log) (string, *packettypes.Packet, []byte) {
 	w := h.w
 	if l.Address != packetcontract.PacketContractAddress || len(l.Topics) == 0 {
-		return "o", nil
+		return "o", nil, nil
 	}
 	if l.Topics[0] != w.sentTopic {
 		if _, err := packetcontract.PacketContract.ABI.EventByID(l.Topics[0]); err != nil {
-			return "u", nil
+			return "u", nil, nil
 		}
-		return "o", nil
+		return "o", nil, nil
 	}
 	vals, err := packetcontract.PacketContract.ABI.Unpack(packettypes.PacketSendEvent, l.Data)
 	if err != nil || len(vals) == 0 {
-		return "b", nil
+		return "b", nil, nil
 	}
 	raw, ok := vals[0].([]byte)
 	if !ok {
-		return "b", nil
+		return "b", nil, nil
 	}
 	var p packettypes.Packet
 	if err := p.ABIDecode(raw); err != nil {
-		return "b", nil
+		return "b", nil, nil
 	}
 	h.see(p.DstChain)
-	return "s " + w.packetFields(&p, true), &p
+	return "s " + w.packetFieldsRaw(&p, true, raw), &p, raw
 }
 
 func (h *c04Hist) logsField(logs []*ethtypes.Log) (string, []*packettypes.Packet) {
 	parts := []string{strconv.Itoa(len(logs))}
 	var ps []*packettypes.Packet
+	h.lastRaws = nil
 	for _, l := range logs {
-		s, p := h.classify(l)
+		s, p, raw := h.classifyRaw(l)
 		parts = append(parts, s)
 		if p != nil {
 			ps = append(ps, p)
+			h.lastRaws = append(h.lastRaws, raw)
 		}
 	}
 	return strings.Join(parts, " "), ps
@@ -393,14 +435,18 @@ func (h *c04Hist) invariants() {
 	pk := w.A.App.XIBCKeeper.PacketKeeper
 	for _, d := range h.dsts() {
 		ss := h.sent[d]
+		base := h.base[d] // packets sent to d before the history started (planted counter - 1); 0 normally and after an upgrade
 		next := pk.GetNextSequenceSend(ctx, w.self, d)
-		if next != uint64(len(ss))+1 {
-			h.find("C04:gap-free-counter", "chain counter ≠ successful sends + 1", fmt.Sprintf("dst %q next=%d sends=%d", d, next, len(ss)), "next = k+1")
+		if next != base+uint64(len(ss))+1 {
+			h.find("C04:gap-free-counter", "chain counter ≠ base + successful sends + 1", fmt.Sprintf("dst %q next=%d base=%d sends=%d", d, next, base, len(ss)), "next = base+k+1")
 		}
 		for i, s := range ss {
-			if s.seq != uint64(i)+1 {
-				h.find("C04:gap-free-order", "i-th successful send does not carry sequence i", fmt.Sprintf("dst %q i=%d seq=%d", d, i+1, s.seq), "seq = i")
+			if s.seq != base+uint64(i)+1 {
+				h.find("C04:gap-free-order", "i-th successful send does not carry sequence base+i", fmt.Sprintf("dst %q i=%d seq=%d base=%d", d, i+1, s.seq, base), "seq = base+i")
 			}
+		}
+		if next == 0 || (len(ss) > 0 && ss[len(ss)-1].seq == ^uint64(0)) {
+			h.find("C04:counter-wrapped", "the uint64 next-send counter wrapped", fmt.Sprintf("dst %q next=%d", d, next), "a send carrying 2^64-1 fails; the counter stays at 2^64-1")
 		}
 		if cn := w.contractNext(d); cn != strconv.FormatUint(next, 10) {
 			h.find("C04:counters-disagree", "chain counter ≠ packet contract counter", fmt.Sprintf("dst %q chain=%d contract=%s", d, next, cn), "equal")
@@ -416,11 +462,12 @@ func (h *c04Hist) invariants() {
 			continue
 		}
 		ss := h.sent[m.DstChain]
-		if m.Sequence == 0 || m.Sequence > uint64(len(ss)) {
-			h.find("C04:commitment-without-send", "commitment without a successful send", key, "committed sequences ⊆ 1..k")
+		base := h.base[m.DstChain]
+		if m.Sequence <= base || m.Sequence-base > uint64(len(ss)) {
+			h.find("C04:commitment-without-send", "commitment without a successful send", key, "committed sequences ⊆ base+1..base+k")
 			continue
 		}
-		want := sha256.Sum256(ss[m.Sequence-1].bytes)
+		want := sha256.Sum256(ss[m.Sequence-base-1].bytes)
 		if !bytes.Equal(want[:], m.Data) {
 			h.find("C04:commitment-not-hash-of-sent-bytes", "commitment ≠ sha256(EventSendPacket bytes)", key, "commitment = sha256(bytes)")
 		}
@@ -443,26 +490,196 @@ func (h *c04Hist) emit(op, res string) {
 	h.invariants()
 }
 
-func (w *c04World) ccData(dst string, tok int, amt int64, withCall bool) ([]byte, *big.Int) {
-	d := packettypes.CrossChainData{DstChain: dst, TokenAddress: w.tokenAddr(tok), Receiver: c04Relayer, Amount: big.NewInt(amt),
-		CallbackAddress: common.Address{}, FeeOption: 0}
-	if withCall {
-		d.ContractAddress = "0x2222222222222222222222222222222222222222"
-		d.CallData = []byte{0xde, 0xad, 0xbe, 0xef}
+// registerRelayers (re-)registers the TSS relayer for every chain it relays for: the standard clients, the extra
+// destinations of wide histories and `more`
+func (w *c04World) registerRelayers(more ...string) {
+	chains := []string{w.tss, w.B.ChainID, w.C.ChainID}
+	addrs := []string{c04Relayer, w.B.SenderAcc.String(), w.C.SenderAcc.String()}
+	for _, n := range append(append([]string{}, w.extra...), more...) {
+		chains = append(chains, n)
+		addrs = append(addrs, c04Relayer)
 	}
-	fee := packettypes.Fee{TokenAddress: w.tokenAddr(tok), Amount: big.NewInt(0)}
+	w.A.App.XIBCKeeper.ClientKeeper.RegisterRelayers(w.A.GetContext(), w.tssAddr, chains, addrs)
+}
+
+func c04Pow2(n uint) *big.Int { return new(big.Int).Lsh(big.NewInt(1), n) }
+
+// c04Boundaries: the boundary values of CROSSCUT (B) for a uint256 amount / fee
+func c04Boundaries() []*big.Int {
+	one := big.NewInt(1)
+	var l []*big.Int
+	for _, n := range []uint{31, 32, 53, 63, 64} {
+		l = append(l, new(big.Int).Sub(c04Pow2(n), one), c04Pow2(n), new(big.Int).Add(c04Pow2(n), one))
+	}
+	l = append(l, c04Pow2(128), c04Pow2(255), new(big.Int).Sub(c04Pow2(256), one))
+	e19, _ := new(big.Int).SetString("10000000000000000000", 10)
+	e30, _ := new(big.Int).SetString("1000000000000000000000000000000", 10)
+	return append(l, e19, e30)
+}
+
+// every field of a cross-chain call, varied
+type c04Send struct {
+	dst      string
+	tok      int
+	amt      *big.Int
+	feeTok   int
+	feeAmt   *big.Int
+	feeOpt   uint64
+	receiver string
+	contract string
+	callData []byte
+	callback common.Address
+	tags     []string // non-default field values, counted when the send commits
+}
+
+func (h *c04Hist) randSend(small bool) c04Send {
+	rg := h.rg
+	s := c04Send{dst: h.randDst(), tok: []int{0, 0, 1, 1, 3}[rg.Intn(5)], receiver: c04Relayer, feeAmt: big.NewInt(0)}
+	s.feeTok = s.tok
+	// amount
+	switch x := rg.Intn(16); {
+	case x == 0:
+		s.amt = big.NewInt(0)
+	case x == 1:
+		s.amt = big.NewInt(1)
+	case x == 2:
+		s.amt = big.NewInt(1_000_000_000)
+	case x == 3:
+		s.amt = big.NewInt(2501)
+	case x < 7 && !small:
+		bs := c04Boundaries()
+		s.amt = bs[rg.Intn(len(bs))]
+		s.tags = append(s.tags, "amount.boundary")
+		if s.amt.BitLen() > 33 {
+			s.tok, s.feeTok = 1, 1 // the token with a balance / allowance large enough
+		}
+		if s.amt.BitLen() > 64 {
+			s.tags = append(s.tags, "amount.ge2^64")
+		}
+	default:
+		s.amt = big.NewInt(int64(1 + rg.Intn(400)))
+	}
+	// fee option: the whole uint64 range
+	if rg.Intn(2) == 0 {
+		opts := []uint64{1, 2, 3, 255, 1<<31 - 1, 1 << 32, 1<<53 + 1, 1<<63 - 1, 1 << 63, ^uint64(0)}
+		s.feeOpt = opts[rg.Intn(len(opts))]
+		s.tags = append(s.tags, "feeopt.nonzero")
+		if s.feeOpt > 3 {
+			s.tags = append(s.tags, "feeopt.out-of-range")
+		}
+		if s.feeOpt >= 1<<63 {
+			s.tags = append(s.tags, "feeopt.ge2^63")
+		}
+	}
+	// fee token / amount
+	if rg.Intn(3) == 0 {
+		switch rg.Intn(5) {
+		case 0:
+			s.feeAmt = big.NewInt(1)
+		case 1:
+			s.feeAmt = big.NewInt(int64(2 + rg.Intn(50)))
+		case 2:
+			s.feeAmt = c04Pow2(64)
+		case 3:
+			s.feeAmt = c04Pow2(128)
+		case 4:
+			s.feeAmt = new(big.Int).Sub(c04Pow2(256), big.NewInt(1))
+		}
+		if rg.Intn(3) == 0 {
+			s.feeTok = []int{0, 1, 3}[rg.Intn(3)]
+		}
+		s.tags = append(s.tags, "fee.nonzero")
+		if s.feeTok != s.tok {
+			s.tags = append(s.tags, "fee.other-token")
+		}
+	}
+	// receiver
+	if rg.Intn(3) == 0 {
+		rs := []string{strings.ToUpper(c04Relayer), "", strings.Repeat("r", 300), "alice", "0x" + strings.Repeat("Ab", 20), c04Relayer + "00"}
+		s.receiver = rs[rg.Intn(len(rs))]
+		s.tags = append(s.tags, "receiver.other")
+	}
+	// contract call
+	if rg.Intn(3) == 0 {
+		cs := []string{"0x2222222222222222222222222222222222222222", "0x2222222222222222222222222222222222222222", strings.ToUpper("0x2222222222222222222222222222222222222222"), "", "not-an-address", strings.Repeat("c", 200)}
+		s.contract = cs[rg.Intn(len(cs))]
+		ls := []int{0, 1, 4, 31, 32, 33, 200, 1500}
+		s.callData = make([]byte, ls[rg.Intn(len(ls))])
+		rg.Read(s.callData)
+		s.tags = append(s.tags, "calldata.present")
+		if len(s.callData) > 32 {
+			s.tags = append(s.tags, "calldata.long")
+		}
+	}
+	// callback
+	if rg.Intn(4) == 0 {
+		cbs := []common.Address{common.HexToAddress("0x77"), agentcontract.AgentContractAddress, h.w.fake, common.HexToAddress("0x" + strings.Repeat("ff", 20))}
+		s.callback = cbs[rg.Intn(len(cbs))]
+		s.tags = append(s.tags, "callback.nonzero")
+	}
+	return s
+}
+
+func (w *c04World) ccPack(s c04Send) ([]byte, *big.Int) {
+	d := packettypes.CrossChainData{DstChain: s.dst, TokenAddress: w.tokenAddr(s.tok), Receiver: s.receiver, Amount: s.amt,
+		ContractAddress: s.contract, CallData: s.callData, CallbackAddress: s.callback, FeeOption: s.feeOpt}
+	fee := packettypes.Fee{TokenAddress: w.tokenAddr(s.feeTok), Amount: s.feeAmt}
 	b, err := endpointcontract.EndpointContract.ABI.Pack("crossChainCall", d, fee)
 	c04Must(err)
 	val := big.NewInt(0)
-	if tok == 3 {
-		val = big.NewInt(amt)
+	if s.tok == 3 {
+		val.Add(val, s.amt)
+	}
+	if s.feeTok == 3 {
+		val.Add(val, s.feeAmt)
+	}
+	if val.BitLen() > 200 {
+		val = big.NewInt(0) // cannot even be funded: the call reverts on value mismatch, which is the point
 	}
 	return b, val
+}
+
+// dry: CROSSCUT (D) — the same handler on a context that is DROPPED (what Simulate, CheckTx, a proposal dry run and a
+// failed multi-message transaction do), before the real delivery. Nothing may remain (keeper-level memos that ignore the
+// context would) and the real delivery that follows must behave as the model says.
+func (h *c04Hist) dry(kind string, f func(ctx sdk.Context)) {
+	w := h.w
+	before := w.stateDigest(false)
+	cctx, _ := w.A.GetContext().CacheContext()
+	safely(func() { f(cctx) })
+	if w.stateDigest(false) != before {
+		h.find("C04:discarded-execution-left-trace", "a handler run on a dropped context changed the committed-to state", kind, "nothing changes")
+	}
+	h.r.Count("dry")
+	h.r.Count("dry." + kind)
+	h.emit("dry "+kind, "ok")
+}
+
+func (h *c04Hist) dryTx(to common.Address, value *big.Int, data []byte) {
+	w := h.w
+	if h.rg.Intn(2) == 0 {
+		h.dry("tx-cache", func(cctx sdk.Context) {
+			_, _ = w.A.App.EvmKeeper.EthereumTx(sdk.WrapSDKContext(cctx), w.signedTx(cctx, to, value, data))
+		})
+		return
+	}
+	h.dry("tx-simulate", func(_ sdk.Context) {
+		ctx := w.A.GetContext()
+		stx, err := w.signedTx(ctx, to, value, data).BuildTx(w.A.TxConfig.NewTxBuilder(), w.A.App.EvmKeeper.GetParams(ctx).EvmDenom)
+		c04Must(err)
+		bz, err := w.A.TxConfig.TxEncoder()(stx)
+		c04Must(err)
+		_, _, _ = w.A.App.BaseApp.Simulate(bz)
+		_ = w.A.App.BaseApp.CheckTx(abci.RequestCheckTx{Tx: bz, Type: abci.CheckTxType_New})
+	})
 }
 
 // doTx delivers one real Ethereum transaction and records it
 func (h *c04Hist) doTx(kind string, to common.Address, value *big.Int, data []byte) {
 	w := h.w
+	if h.rg.Intn(100) < 10 {
+		h.dryTx(to, value, data)
+	}
 	before := w.stateDigest(false)
 	out := w.deliverEth(to, value, data)
 	if out.sdkErr != nil {
@@ -502,6 +719,26 @@ func (h *c04Hist) doTx(kind string, to common.Address, value *big.Int, data []by
 				}
 			}
 		}
+		h.checkEmitted(ps, h.lastRaws, evs)
+		for _, p := range ps {
+			if p.Sequence >= 1<<63 {
+				h.r.Count("send.ok.seq-ge2^63")
+			}
+			if p.Sequence == ^uint64(0)-1 {
+				h.r.Count("send.ok.seq-max-1")
+			}
+			if len(w.extra) > 0 {
+				h.r.Count("send.ok.wide")
+			}
+		}
+		if kind == "send" && len(ps) == 1 {
+			for _, tg := range h.pendingTags {
+				h.r.Count("sendfield." + tg)
+			}
+			if ps[0].FeeOption != 0 {
+				h.r.Count("sendfield.emitted-feeopt-nonzero")
+			}
+		}
 		if len(ps) > 0 {
 			h.r.Count("send.ok")
 			if h.upgraded > 0 {
@@ -519,12 +756,41 @@ func (h *c04Hist) doTx(kind string, to common.Address, value *big.Int, data []by
 		if len(evs) != 0 {
 			h.find("C04:failed-tx-emitted-send", "failed transaction emitted EventSendPacket", out.vmErr, "no send")
 		}
+		for _, p := range ps {
+			if p.Sequence == ^uint64(0) {
+				h.r.Count("send.at-max.rejected")
+			}
+		}
 		if after := w.stateDigest(false); after != before {
 			h.find("C04:failed-tx-changed-state", "failed transaction changed xibc store / contract storage / balances", kind+" "+out.vmErr, "state identical before and after")
 		}
 	}
+	h.pendingTags = nil
 	h.r.Count("tx." + kind + "." + res)
 	h.emit("tx "+c04B(vmOk)+" "+lf, res)
+}
+
+// checkEmitted: for every genuine PacketSent log of a committed operation — the stored commitment is sha256 of the bytes
+// the packet contract EMITTED (payload of the log, decoded with the contract ABI only), it is also sha256 of the bytes
+// of the chain's EventSendPacket, and the two byte strings are equal
+func (h *c04Hist) checkEmitted(ps []*packettypes.Packet, raws [][]byte, evs []packettypes.EventSendPacket) {
+	if h.selfCl || len(ps) != len(raws) || len(ps) != len(evs) {
+		return
+	}
+	pk := h.w.A.App.XIBCKeeper.PacketKeeper
+	for i, p := range ps {
+		key := p.DstChain + "/" + strconv.FormatUint(p.Sequence, 10)
+		want := sha256.Sum256(raws[i])
+		got := pk.GetPacketCommitment(h.w.A.GetContext(), h.w.self, p.DstChain, p.Sequence)
+		if !bytes.Equal(got, want[:]) {
+			h.find("C04:commitment-not-hash-of-emitted-log", "stored commitment ≠ sha256(payload of the packet contract's PacketSent log)",
+				fmt.Sprintf("%s fee option in the emitted packet: see replay; commitment %x, sha256(emitted) %x", key, got, want[:]), "commitment = sha256(emitted packet bytes)")
+		}
+		if !bytes.Equal(evs[i].Packet, raws[i]) {
+			h.find("C04:event-bytes-differ-from-emitted-log", "EventSendPacket bytes ≠ bytes emitted by the packet contract", key, "the chain announces the packet the contract emitted")
+		}
+		h.r.Count("send.emitted-checked")
+	}
 }
 
 func (h *c04Hist) forgedPacket(dst string, seq uint64, src string, data bool) packettypes.Packet {
@@ -550,7 +816,11 @@ func (h *c04Hist) randomForgedPacket() packettypes.Packet {
 	dst := ds[rg.Intn(len(ds))]
 	next := w.A.App.XIBCKeeper.PacketKeeper.GetNextSequenceSend(w.A.GetContext(), w.self, dst)
 	p := h.forgedPacket(dst, next, w.self, true)
-	switch rg.Intn(12) {
+	if rg.Intn(3) == 0 { // forged packets vary the fields a genuine one varies
+		p.FeeOption = []uint64{1, 2, 1 << 63, ^uint64(0)}[rg.Intn(4)]
+		p.CallbackAddress = "0x0000000000000000000000000000000000000077"
+	}
+	switch rg.Intn(18) {
 	case 0:
 		p.Sequence = next + 1
 	case 1:
@@ -595,7 +865,7 @@ func (h *c04Hist) doHook() {
 			}
 		}
 		l.Data = h.sentLogData(p)
-		switch rg.Intn(10) {
+		switch rg.Intn(16) {
 		case 0:
 			l.Address = w.fake // look-alike address
 		case 1:
@@ -610,6 +880,7 @@ func (h *c04Hist) doHook() {
 		logs = append(logs, l)
 	}
 	lf, ps := h.logsField(logs)
+	hookRaws := h.lastRaws
 	ctx := w.A.GetContext()
 	cctx, write := ctx.CacheContext()
 	before := w.stateDigest(false)
@@ -624,7 +895,9 @@ func (h *c04Hist) doHook() {
 	if err == nil {
 		write()
 		res = "ok"
-		h.noteSends(c04SendEvents(cctx.EventManager().ABCIEvents()))
+		hevs := c04SendEvents(cctx.EventManager().ABCIEvents())
+		h.noteSends(hevs)
+		h.checkEmitted(ps, hookRaws, hevs)
 		if len(ps) > 0 {
 			h.r.Count("hook.ok.sends")
 		}
@@ -670,6 +943,7 @@ func (h *c04Hist) doUpgrade() {
 	safely(func() { w.A.SetPacketChainName() })
 	h.sent = map[string][]c04Sent{}
 	h.acked = map[string]bool{}
+	h.base = map[string]uint64{}
 	h.selfCl = false
 	h.upgraded++
 	h.r.Count("upgrade")
@@ -707,8 +981,7 @@ func (h *c04Hist) doClient(name string) {
 			h.selfCl = true
 		}
 		// the TSS relayer must be registered for the new chain for acknowledgements from it
-		w.A.App.XIBCKeeper.ClientKeeper.RegisterRelayers(ctx, w.tssAddr, []string{w.tss, w.B.ChainID, w.C.ChainID, name},
-			[]string{c04Relayer, w.B.SenderAcc.String(), w.C.SenderAcc.String(), c04Relayer})
+		w.registerRelayers(name)
 	}
 	h.see(name)
 	if name == w.self {
@@ -786,10 +1059,6 @@ func (h *c04Hist) doRecv(kind int) {
 		p.TransferData = mkTransfer(c04Relayer)
 		p.Sender = "forged"
 	}
-	h.see(p.DstChain)
-	if nestedDst != "" {
-		h.see(nestedDst)
-	}
 	bz, err := p.ABIPack()
 	c04Must(err)
 	msg := &packettypes.MsgRecvPacket{Packet: bz, ProofCommitment: []byte("x"), ProofHeight: clienttypes.NewHeight(0, 1), Signer: signer}
@@ -801,6 +1070,21 @@ func (h *c04Hist) doRecv(kind int) {
 		cn, _ := strconv.ParseUint(w.contractNext(nestedDst), 10, 64)
 		np.Sequence = cn
 		nestedLog = strings.Join([]string{"s", hxs(np.SrcChain), hxs(np.DstChain), strconv.FormatUint(np.Sequence, 10), "1", "-", "-", "2", strconv.FormatInt(amt-fee, 10)}, " ")
+	}
+	if h.rg.Intn(100) < 15 {
+		h.dry("recv-cache", func(cctx sdk.Context) {
+			_, _ = w.A.App.XIBCKeeper.RecvPacket(sdk.WrapSDKContext(cctx), msg)
+		})
+		if nestedDst != "" { // the sequence the contract will emit is read again after the dry run (it must be the same)
+			cn2, _ := strconv.ParseUint(w.contractNext(nestedDst), 10, 64)
+			if !strings.Contains(nestedLog, " "+strconv.FormatUint(cn2, 10)+" 1 - - ") {
+				h.find("C04:discarded-execution-left-trace", "contract counter moved by a dropped receive", nestedDst, "unchanged")
+			}
+		}
+	}
+	h.see(p.DstChain)
+	if nestedDst != "" {
+		h.see(nestedDst)
 	}
 	before := w.stateDigest(true)
 	res, derr := w.deliverMsg(msg)
@@ -928,6 +1212,12 @@ func (h *c04Hist) doAck() {
 
 func (h *c04Hist) randDst() string {
 	w, rg := h.w, h.rg
+	if len(w.extra) > 0 && rg.Intn(10) < 6 {
+		if h.hot != "" && rg.Intn(3) == 0 {
+			return h.hot // the destination whose counter is about to reach 2^64-1
+		}
+		return w.extra[rg.Intn(len(w.extra))]
+	}
 	switch x := rg.Intn(20); {
 	case x < 6:
 		return w.B.ChainID
@@ -945,20 +1235,6 @@ func (h *c04Hist) randDst() string {
 	return "tss-2"
 }
 
-func (h *c04Hist) randAmt(tok int) int64 {
-	rg := h.rg
-	switch rg.Intn(12) {
-	case 0:
-		return 0
-	case 1:
-		return 1
-	case 2:
-		return 1_000_000_000 // above balance and allowance
-	case 3:
-		return 2501 // above the remaining allowance soon
-	}
-	return int64(1 + rg.Intn(400))
-}
 
 func (h *c04Hist) genOp(witness bool) {
 	w, rg := h.w, h.rg
@@ -979,11 +1255,12 @@ func (h *c04Hist) genOp(witness bool) {
 	}
 	switch x := rg.Intn(100); {
 	case x < 30: // single crossChainCall from the sender
-		tok := []int{0, 0, 1, 3}[rg.Intn(4)]
-		dst := h.randDst()
-		data, val := w.ccData(dst, tok, h.randAmt(tok), rg.Intn(4) == 0)
+		snd := h.randSend(false)
+		data, val := w.ccPack(snd)
+		h.pendingTags = snd.tags
 		h.doTx("send", endpointcontract.EndpointContractAddress, val, data)
 	case x < 50: // several calls in ONE transaction through the multicall contract
+		h.pendingTags = nil
 		n := 2 + rg.Intn(2)
 		var data []byte
 		total := big.NewInt(0)
@@ -994,9 +1271,9 @@ func (h *c04Hist) genOp(witness bool) {
 				payload := append(w.sentTopic.Bytes(), h.sentLogData(h.randomForgedPacket())...)
 				data = append(data, c04Record(w.fake, must, big.NewInt(0), payload)...)
 			default:
-				tok := []int{0, 1, 3}[rg.Intn(3)]
-				dst := h.randDst()
-				d, val := w.ccData(dst, tok, h.randAmt(tok)%500, rg.Intn(4) == 0)
+				snd := h.randSend(true)
+				d, val := w.ccPack(snd)
+				h.pendingTags = append(h.pendingTags, snd.tags...)
 				total.Add(total, val)
 				data = append(data, c04Record(endpointcontract.EndpointContractAddress, must, val, d)...)
 			}
@@ -1047,6 +1324,9 @@ func (w *c04World) fund() {
 		c04ModCall(ctx, w.A, w.A.SenderAddress, w.tok[i], c04ERC20Pack("approve", endpointcontract.EndpointContractAddress, big.NewInt(2500)))
 		c04ModCall(ctx, w.A, w.multi, w.tok[i], c04ERC20Pack("approve", endpointcontract.EndpointContractAddress, big.NewInt(2500)))
 	}
+	// token 1: a balance and an allowance large enough for the boundary amounts (2^64, 2^128 commit; 2^255 and above do not)
+	c04ModCall(ctx, w.A, w.A.SenderAddress, w.tok[1], c04ERC20Pack("mint", w.A.SenderAddress, c04Pow2(250)))
+	c04ModCall(ctx, w.A, w.A.SenderAddress, w.tok[1], c04ERC20Pack("approve", endpointcontract.EndpointContractAddress, new(big.Int).Sub(c04Pow2(256), big.NewInt(1))))
 	// native coins for the multicall contract are forwarded from the transaction value
 	p := w.A.App.FeeMarketKeeper.GetParams(ctx)
 	p.NoBaseFee = true
@@ -1058,18 +1338,22 @@ func (w *c04World) fund() {
 func newC04Hist(t *testing.T, r *Rec, cb bool, sub int64, mode int, n int) *c04Hist {
 	w := newC04World(t)
 	w.fund()
-	h := &c04Hist{w: w, r: r, universe: map[string]bool{}, sent: map[string][]c04Sent{}, acked: map[string]bool{}, cb: cb, rg: rand.New(rand.NewSource(sub))}
+	h := &c04Hist{w: w, r: r, universe: map[string]bool{}, sent: map[string][]c04Sent{}, acked: map[string]bool{}, base: map[string]uint64{}, cb: cb, rg: rand.New(rand.NewSource(sub))}
 	gen := fmt.Sprintf("gen %d %d %d", sub, mode, n)
 	h.ops = append(h.ops, gen)
 	r.Op(gen, "ok")
 	cl := []string{w.B.ChainID, w.C.ChainID, w.tss, "tss-2"}
+	if mode == 4 {
+		w.widen(h)
+		cl = append(cl, w.extra...)
+	}
 	var parts []string
 	for _, c := range cl {
 		h.see(c)
 		parts = append(parts, hxs(c))
 	}
 	op := "reset " + hxs(w.self) + " " + c04B(cb) + " " + c04B(c04RejectOwn) + " " + strconv.Itoa(len(cl)) + " " + strings.Join(parts, " ")
-	seqs := w.A.App.XIBCKeeper.PacketKeeper.GetAllPacketSendSeqs(w.A.GetContext())
+	seqs := w.rawSendSeqs()
 	op += " " + strconv.Itoa(len(seqs))
 	for _, s := range seqs {
 		op += " " + hxs(s.DstChain) + " " + strconv.FormatUint(s.Sequence, 10)
@@ -1098,6 +1382,57 @@ func c04ProbeCb(t *testing.T) bool {
 		t.Fatalf("C04 probe receive failed: %v", err)
 	}
 	return w.outTokens(2, c04Unk) == before
+}
+
+// c04ExtraNames: second (… fourteenth) instances of "a destination": prefix-related names and case siblings
+var c04ExtraNames = []string{"dst", "dst-1", "dst-10", "dst-1a", "Dst-1", "DST-1", "dsT-1", "d", "tss-10", "tss-1x"}
+
+// widen: wide / boundary histories — ten more destinations (TSS clients), and the counters of some of them planted at
+// boundary values on BOTH sides (chain store and the packet contract's `sequences` slot) before the history starts: a
+// chain that has already sent n-1 packets there
+func (w *c04World) widen(h *c04Hist) {
+	ctx := w.A.GetContext()
+	for _, n := range c04ExtraNames {
+		c04Must(w.A.App.XIBCKeeper.ClientKeeper.CreateClient(ctx, n, &tsstypes.ClientState{TssAddress: w.tssAddr}, &tsstypes.ConsensusState{}))
+	}
+	w.extra = append([]string{}, c04ExtraNames...)
+	w.registerRelayers()
+	max := ^uint64(0)
+	vals := []uint64{2, 1<<31 - 1, 1 << 32, 1<<53 + 1, 1<<63 - 1, 1 << 63, max - 3, max - 2, max - 1, max}
+	perm := h.rg.Perm(len(w.extra))
+	for i := 0; i < 5; i++ {
+		dst, n := w.extra[perm[i]], vals[h.rg.Intn(len(vals))]
+		if i == 0 {
+			n = max - 1 - uint64(h.rg.Intn(2)) // always one destination about to be closed
+			h.hot = dst
+		}
+		w.plant(dst, n)
+		h.base[dst] = n - 1
+		h.r.Count("plant")
+		if n >= 1<<63 {
+			h.r.Count("plant.ge2^63")
+		}
+		if n >= max-2 {
+			h.r.Count("plant.near-max")
+		}
+	}
+	w.coord.CommitBlock(w.A)
+}
+
+func (w *c04World) plant(dst string, n uint64) {
+	ctx := w.A.GetContext()
+	val := common.LeftPadBytes(new(big.Int).SetUint64(n).Bytes(), 32)
+	for slot := int64(0); slot < 40; slot++ {
+		key := crypto.Keccak256Hash(append([]byte(dst), common.LeftPadBytes(big.NewInt(slot).Bytes(), 32)...))
+		old := w.A.App.EvmKeeper.GetState(ctx, packetcontract.PacketContractAddress, key)
+		w.A.App.EvmKeeper.SetState(ctx, packetcontract.PacketContractAddress, key, val)
+		if w.contractNext(dst) == new(big.Int).SetUint64(n).String() {
+			w.A.App.XIBCKeeper.PacketKeeper.SetNextSequenceSend(ctx, w.self, dst, n)
+			return
+		}
+		w.A.App.EvmKeeper.SetState(ctx, packetcontract.PacketContractAddress, key, old.Bytes())
+	}
+	panic("C04: storage slot of the packet contract's sequences mapping not found")
 }
 
 // probe: does HandleCreateClient reject the chain's own name (optional hardening patch)?
@@ -1165,6 +1500,8 @@ func TestC04(t *testing.T) {
 			mode = 2
 		case i%8 == 5: // restart-heavy: the chain is restarted from its exported genesis at arbitrary points
 			mode = 3
+		case i%8 == 1: // wide + boundary: fourteen destinations, some counters planted near 2^63 / 2^64-1
+			mode = 4
 		}
 		runHist(r.Rng.Int63(), mode, 5+r.Rng.Intn(hl))
 	}
